@@ -155,6 +155,7 @@ class Renderer(object):
         self.case = case      # 'lower' / 'upper' / None = per command at random
         self.sep = sep        # probability of a separator semicolon between two commands
         self.nsep = 0
+        self.nblanknum = 0    # numbers written with blanks before / between their digits
         self.nsep_lower = 0   # separators directly followed by a lower-case command letter
         self.nvar = 0
         self.narr = narr if narr is not None else set()   # array elements / early scalars handed out (shared with sub-renderers)
@@ -211,9 +212,19 @@ class Renderer(object):
             return s
         return s.lower() if self.rng.random() < 0.35 else s
 
+    def _digits(self, value):
+        """Decimal digits of a literal number; blanks before and between the digits are ignored by the macro language."""
+        s = b'%d' % value
+        if self.rng.random() < 0.12:
+            out = b''.join((b' ' if self.rng.random() < 0.5 else b'') + s[i:i + 1] for i in range(len(s)))
+            if out != s:
+                self.nblanknum += 1
+            return out
+        return s
+
     def _number(self, letter, value, form, pieces):
         if form == 'lit' or form is None:
-            pieces.append(('lit', self._case(letter) + b'%d' % value))
+            pieces.append(('lit', self._case(letter) + self._digits(value)))
             return
         name = self._name('num', form[1])
         self.assign.append((name, value))
@@ -249,7 +260,7 @@ class Renderer(object):
             if op == 'note':
                 s = tk[1].encode() + tk[2].encode()
                 if tk[3]:
-                    s += b'%d' % tk[3]
+                    s += self._digits(tk[3])
                 s += b'.' * tk[4]
                 pieces.append(('lit', self._case(s)))
             elif op == 'N':
@@ -257,7 +268,7 @@ class Renderer(object):
                 if tk[2]:
                     pieces.append(('lit', b'.' * tk[2]))
             elif op == 'P':
-                pieces.append(('lit', self._case(b'P') + b'%d' % tk[1] + b'.' * tk[2]))
+                pieces.append(('lit', self._case(b'P') + self._digits(tk[1]) + b'.' * tk[2]))
             elif op in ('L', 'T', 'O', 'V'):
                 self._number(op.encode(), tk[1], form, pieces)
             elif op in ('<', '>'):
@@ -272,6 +283,7 @@ class Renderer(object):
                 self.assign.extend(sub.assign)
                 self.nrefs += sub.nrefs + 1
                 self.nsep += sub.nsep
+                self.nblanknum += sub.nblanknum
                 self.nsep_lower += sub.nsep_lower
                 self.nvar = sub.nvar
                 name = self._name('str', form[1])
@@ -519,6 +531,8 @@ class Rig(object):
                 res.violation('play:tone-on-unused-voice', 'voice %d sounds %r' % (vi, extra[:3]), case)
         if rnd.nrefs:
             res.count('variable_references', rnd.nrefs)
+        if rnd.nblanknum:
+            res.count('numbers_with_blanks_between_digits', rnd.nblanknum)
         if rnd.nsep:
             res.count('separator_semicolons', rnd.nsep)
         if rnd.nsep_lower:
